@@ -35,6 +35,10 @@ esac
 case " $PROPS " in *" C08 "*)
   /venv/bin/python "$ROOT/harness/translate/py2gallina_c08.py" 2> >(grep -v conda >&2) || echo "setup: translator rejected the source (coq/Gen/LocalGrid1DGen.v is a non-compiling stub)" >&2 ;;
 esac
+# C12: source-derived Function cache machine (same object-machine front end, target funcache)
+case " $PROPS " in *" C12 "*)
+  /venv/bin/python "$ROOT/harness/translate/py2gallina_machine.py" --target funcache 2> >(grep -v conda >&2) || echo "setup: translator rejected the source (coq/Gen/FunCacheGen.v is a non-compiling stub)" >&2 ;;
+esac
 # C13: source-derived driver loop (object machine: abstract methods are parameters), own front end
 case " $PROPS " in *" C13 "*)
   /venv/bin/python "$ROOT/harness/translate/py2gallina_machine.py" --target driver 2> >(grep -v conda >&2) || echo "setup: translator rejected the source (coq/Gen/DriverGen.v is a non-compiling stub)" >&2 ;;
